@@ -17,7 +17,6 @@ import (
 	col "github.com/craterdog/go-collection-framework/v4/collection"
 	stc "strconv"
 	sts "strings"
-	utf "unicode/utf8"
 )
 
 // CLASS ACCESS
@@ -123,6 +122,14 @@ func (v *parser_) ParseSource(source string) (collection any) {
 }
 
 // Private
+
+func (v *parser_) checkLiteral(token TokenLike, err error) {
+	if err != nil {
+		var message = v.formatError(token)
+		message += "The literal cannot be represented: " + err.Error() + "\n"
+		panic(message)
+	}
+}
 
 func (v *parser_) drainTokens() {
 	for !v.eof_ {
@@ -574,22 +581,30 @@ func (v *parser_) parseIntrinsic() (
 	}
 	_, token, ok = v.parseToken(ComplexToken, "")
 	if ok {
-		intrinsic, _ = stc.ParseComplex(token.GetValue(), 128)
+		var err error
+		intrinsic, err = stc.ParseComplex(token.GetValue(), 128)
+		v.checkLiteral(token, err)
 		return intrinsic, token, true
 	}
 	_, token, ok = v.parseToken(FloatToken, "")
 	if ok {
-		intrinsic, _ = stc.ParseFloat(token.GetValue(), 64)
+		var err error
+		intrinsic, err = stc.ParseFloat(token.GetValue(), 64)
+		v.checkLiteral(token, err)
 		return intrinsic, token, true
 	}
 	_, token, ok = v.parseToken(HexadecimalToken, "")
 	if ok {
-		intrinsic, _ = stc.ParseUint(token.GetValue()[2:], 16, 64)
+		var err error
+		intrinsic, err = stc.ParseUint(token.GetValue()[2:], 16, 64)
+		v.checkLiteral(token, err)
 		return intrinsic, token, true
 	}
 	_, token, ok = v.parseToken(IntegerToken, "")
 	if ok {
-		intrinsic, _ = stc.ParseInt(token.GetValue(), 10, 64)
+		var err error
+		intrinsic, err = stc.ParseInt(token.GetValue(), 10, 64)
+		v.checkLiteral(token, err)
 		return intrinsic, token, true
 	}
 	_, token, ok = v.parseToken(NilToken, "")
@@ -600,14 +615,21 @@ func (v *parser_) parseIntrinsic() (
 	_, token, ok = v.parseToken(RuneToken, "")
 	if ok {
 		var matches = Scanner().MatchToken(RuneToken, token.GetValue())
-		var match, _ = stc.Unquote(matches.GetValue(1))
-		intrinsic, _ = utf.DecodeRuneInString(match)
+		var match = matches.GetValue(1)
+		var value, _, tail, err = stc.UnquoteChar(match[1:len(match)-1], '\'')
+		if err == nil && len(tail) > 0 {
+			err = stc.ErrSyntax
+		}
+		v.checkLiteral(token, err)
+		intrinsic = value
 		return intrinsic, token, true
 	}
 	_, token, ok = v.parseToken(StringToken, "")
 	if ok {
 		var matches = Scanner().MatchToken(StringToken, token.GetValue())
-		intrinsic, _ = stc.Unquote(matches.GetValue(1))
+		var err error
+		intrinsic, err = stc.Unquote(matches.GetValue(1))
+		v.checkLiteral(token, err)
 		return intrinsic, token, true
 	}
 
